@@ -159,3 +159,173 @@ def r_client_framing(model, obligation):
     te = "chunked" in {k.lower(): v for k, v in hdrs.items()}.get("transfer-encoding", "").lower()
     bad = (cl and te) or (chunking != te)
     return {"confirmed": bool(bad), "detail": f"headers={hdrs} writer.chunked={chunking}", "input": w}
+
+
+@native("C02.client.status_line")
+def r_status_line(model, obligation):
+    """feed the witness status line + headers to the real HttpResponseParser.parse_message"""
+    w = model.get("__witness__") or {}
+    if obligation != "C02.ka.response_default" or "version" not in w:
+        return {"confirmed": False, "detail": "no replayable witness for this obligation"}
+    import unittest.mock as mock
+
+    from aiohttp.http_parser import HttpResponseParserPy
+
+    (major, minor), code = w["version"], int(w["code"])
+    if not (0 <= major <= 9 and 0 <= minor <= 9 and 0 <= code <= 999):
+        return {"confirmed": False, "detail": f"witness outside the status-line grammar: {w}"}
+    lines = [b"HTTP/%d.%d %03d OK" % (major, minor, code)]
+    if w.get("content_length"):
+        lines.append(b"Content-Length: 0")
+    if w.get("transfer_encoding"):
+        lines.append(b"Transfer-Encoding: chunked")
+    lines.append(b"")
+    p = HttpResponseParserPy(mock.Mock(), asyncio.new_event_loop(), 65536)
+    try:
+        m = p.parse_message(lines)
+    except Exception as e:  # noqa: BLE001
+        return {"confirmed": False, "detail": f"refused: {e!r}"}
+    old = (major, minor) <= (1, 0)
+    delimited = 100 <= code < 200 or code in (204, 304) or bool(w.get("content_length")) or bool(w.get("transfer_encoding"))
+    want = True if old else not delimited
+    return {"confirmed": m.should_close is not want,
+            "detail": f"{lines[:-1]!r}: should_close={m.should_close!r}, receiver rule says {want!r}", "input": [x.decode() for x in lines]}
+
+
+@native("C02.server.write_eof")
+def r_write_eof(model, obligation):
+    """real Response with the witness body kind, marked must-be-empty as after prepare() for HEAD / 204 / 304"""
+    w = model.get("__witness__") or {}
+    if obligation != "C02.frame.resp.bodiless_sends_no_body" or "body_kind" not in w:
+        return {"confirmed": False, "detail": "no replayable witness for this obligation"}
+    import io
+
+    from aiohttp import web
+
+    wire = []
+
+    class W:
+        output_size = 0
+
+        async def write(self, b, **k):
+            wire.append(bytes(b))
+
+        async def write_eof(self, b=b""):
+            if b:
+                wire.append(bytes(b))
+
+    kind = w["body_kind"]
+    body = {"none": None, "bytes": b"BODY", "compressed": b"BODY", "payload": io.BytesIO(b"BODY")}[kind]
+
+    async def run():
+        r = web.Response(body=body, status=204)
+        if kind == "compressed":
+            r._compressed_body = b"COMPRESSED"
+        r._must_be_empty_body = True
+        r._req = mock_req
+        r._payload_writer = W()
+        await r.write_eof()
+
+    import unittest.mock as mock
+
+    mock_req = mock.Mock()
+    asyncio.run(run())
+    return {"confirmed": bool(wire), "detail": f"Response(body={kind}, 204).write_eof() put {wire!r} on the wire after the headers",
+            "input": w}
+
+
+@native("C08.iterators")
+def r_iterators(model, obligation):
+    """the real ChunkTupleAsyncStreamIterator over a stream whose readchunk() gives the witness pair"""
+    w = model.get("__witness__") or {}
+    if obligation != "C08.iter.chunks.stops_only_at_end_of_stream" or "len" not in w:
+        return {"confirmed": False, "detail": "no replayable witness for this obligation"}
+    from aiohttp.streams import ChunkTupleAsyncStreamIterator
+
+    pair = (b"x" * int(w["len"]), bool(w["end_of_http_chunk"]))
+
+    class S:
+        async def readchunk(self):
+            return pair
+
+    async def run():
+        try:
+            return await ChunkTupleAsyncStreamIterator(S()).__anext__()
+        except StopAsyncIteration:
+            return "stop"
+
+    got = asyncio.run(run())
+    want = "stop" if pair == (b"", False) else pair
+    return {"confirmed": got != want, "detail": f"readchunk() -> {pair!r}: iteration step gave {got!r}, expected {want!r}",
+            "input": [pair[0].hex(), pair[1]]}
+
+
+@native("C12.handle_frame.contract")
+def r_close_code(model, obligation):
+    """a real WebSocketReader fed one unmasked Close frame carrying the witness status code"""
+    w = model.get("__witness__") or {}
+    if "close_code" not in w or not (obligation.startswith("C11.close.") or obligation == "C12.handle.close.code_valid"):
+        return {"confirmed": False, "detail": "no replayable witness for this obligation"}
+    import unittest.mock as mock
+
+    from aiohttp._websocket.reader import WebSocketDataQueue
+    from aiohttp._websocket.reader_py import WebSocketReader
+
+    cc = int(w["close_code"])
+    if not 0 <= cc <= 65535:
+        return {"confirmed": False, "detail": f"code {cc} does not fit the frame"}
+    loop = asyncio.new_event_loop()
+    q = WebSocketDataQueue(mock.Mock(_reading_paused=False), 2 ** 16, loop=loop)
+    r = WebSocketReader(q, 4 * 2 ** 20, False, True)
+    frame = bytes([0x88, 2, cc >> 8, cc & 255])
+    r.feed_data(frame)
+    refused = q.exception() is not None
+    valid = 3000 <= cc <= 4999 or cc in (1000, 1001, 1002, 1003, 1007, 1008, 1009, 1010, 1011, 1012, 1013, 1014)
+    return {"confirmed": refused == valid, "detail": f"Close frame with status {cc}: "
+            f"{'refused with ' + repr(q.exception()) if refused else 'delivered'}; wire-valid per RFC 6455 7.4 / IANA: {valid}",
+            "input": frame.hex()}
+
+
+@native("C15.conditional.precedence")
+def r_conditional(model, obligation):
+    """a real FileResponse on a temporary file whose mtime / entity tag stand in the witness relation to the request's
+    conditional headers (dates are mapped order-preservingly into a range utime() accepts)"""
+    w = model.get("__witness__") or {}
+    if obligation != "C15.cond.precedence" or "present" not in w:
+        return {"confirmed": False, "detail": "no replayable witness for this obligation"}
+    import datetime
+    import os
+    import tempfile
+    import unittest.mock as mock
+
+    from aiohttp.helpers import ETag
+    from aiohttp.web_fileresponse import FileResponse, _FileResponseResult as R
+
+    has = w["present"]
+    raw = {"mtime": int(w["mtime"]), "ius": int(w["if_unmodified_since"]), "ims": int(w["if_modified_since"])}
+    rank = {v: i for i, v in enumerate(sorted(set(raw.values())))}
+    t = {k: 1_000_000_000 + 1000 * rank[v] for k, v in raw.items()}
+    with tempfile.TemporaryDirectory() as td:
+        p = os.path.join(td, "f.bin")
+        with open(p, "wb") as fh:
+            fh.write(b"hello")
+        os.utime(p, (t["mtime"], t["mtime"]))
+        st = os.stat(p)
+        tag = f"{st.st_mtime_ns:x}-{st.st_size:x}"
+        dt = lambda s: datetime.datetime.fromtimestamp(s, datetime.timezone.utc)
+        req = mock.Mock()
+        req.if_match = (ETag(value=tag if w["if_match.matches"] else "other"),) if has["if_match"] else None
+        req.if_none_match = (ETag(value=tag if w["if_none_match.matches"] else "other"),) if has["if_none_match"] else None
+        req.if_unmodified_since = dt(t["ius"]) if has["if_unmodified_since"] else None
+        req.if_modified_since = dt(t["ims"]) if has["if_modified_since"] else None
+        res, fobj, _, _ = FileResponse(p)._make_response(req, "")
+        if fobj is not None:
+            fobj.close()
+    pre_failed = (has["if_match"] and not w["if_match.matches"]) or \
+        (not has["if_match"] and has["if_unmodified_since"] and t["mtime"] > t["ius"])
+    not_mod = not pre_failed and ((has["if_none_match"] and w["if_none_match.matches"]) or
+                                  (not has["if_none_match"] and has["if_modified_since"] and t["mtime"] <= t["ims"]))
+    want = R.PRE_CONDITION_FAILED if pre_failed else R.NOT_MODIFIED if not_mod else R.SEND_FILE
+    return {"confirmed": res is not want, "detail": f"headers present={has}, tag matches: If-Match={w['if_match.matches']} "
+            f"If-None-Match={w['if_none_match.matches']}, mtime/IUS/IMS ranks={[rank[raw[k]] for k in ('mtime', 'ius', 'ims')]}: "
+            f"real _make_response -> {res.name}, RFC 9110 13.2.2 -> {want.name}", "input": w}
